@@ -33,6 +33,8 @@ def run_one(args):
     mid = mut['id']
     if mut.get('revert'):
         return run_revert(mut, src_root)
+    if mut.get('patch'):
+        return run_patch(mut, src_root)
     path = os.path.join(src_root, mut['file'])
     with open(path, encoding='utf-8') as f:
         text = f.read()
@@ -80,6 +82,36 @@ def run_one(args):
             if bad:
                 return mid, 'FALSE-ALARM', str(bad)[:400]
             return mid, 'silent', ''
+    finally:
+        shutil.rmtree(tmp, ignore_errors=True)
+
+
+def run_patch(mut, src_root):
+    """Benign variant given as a unified diff against the current tree."""
+    mid = mut['id']
+    tmp = tempfile.mkdtemp(prefix='txsa-mut-')
+    try:
+        shutil.copytree(os.path.join(src_root, 'txdbus'),
+                        os.path.join(tmp, 'txdbus'))
+        pr = subprocess.run(['patch', '-s', '-p1', '-i', mut['patch']],
+                            cwd=tmp, capture_output=True, text=True)
+        if pr.returncode != 0:
+            return mid, 'inapplicable', 'patch does not apply: %s' % (
+                pr.stdout + pr.stderr)[-200:]
+        bad = []
+        for pid in mut['props']:
+            env = dict(os.environ, TXSA_EVIDENCE_OUT=os.path.join(
+                tmp, 'ev-%s.json' % pid), TXSA_NO_REPLAY='1')
+            pr = subprocess.run(
+                [os.path.join(VERIF, 'check'), pid, '--tier', 'quick',
+                 '--src', tmp],
+                capture_output=True, text=True, env=env, timeout=300)
+            keys = re.findall(r'^FINDING (\S+)', pr.stdout, re.M)
+            if pr.returncode != 0:
+                bad.append((pid, pr.returncode, keys[:3]))
+        if bad:
+            return mid, 'FALSE-ALARM', str(bad)[:400]
+        return mid, 'silent', ''
     finally:
         shutil.rmtree(tmp, ignore_errors=True)
 
